@@ -5,7 +5,8 @@ VERIF = os.path.dirname(os.path.dirname(os.path.abspath(__file__)))
 REPO = os.environ.get("VERIF_REPO", "/repo")
 CACHE = os.path.join(VERIF, ".cache")
 COQ = os.path.join(VERIF, "coq")
-TARGET = os.path.join(CACHE, "target")
+COV = os.environ.get("VERIF_COV") == "1"   # coverage measurement of /repo under the checks' inputs (tools/coverage.sh)
+TARGET = os.path.join(CACHE, "target-cov" if COV else "target")
 GUARD = "device_driver_verif"
 NCPU = 16
 LOCK = os.path.join(CACHE, "coq.lock")
@@ -253,10 +254,10 @@ def cargo_build(pkgs, release=False, timeout=1800, extra_env=None):
     lock = os.path.join(h, "Cargo.lock")
     if not os.path.exists(lock):
         shutil.copy(os.path.join(REPO, "Cargo.lock"), lock)
-    cmd = ["cargo", "build", "--offline"] + (["--release"] if release else [])
+    cmd = ["cargo"] + (["+nightly"] if COV else []) + ["build", "--offline"] + (["--release"] if release else [])
     for p in pkgs:
         cmd += ["-p", p]
-    env = {"CARGO_TARGET_DIR": TARGET, "RUSTFLAGS": f"--cfg {GUARD}"}
+    env = {"CARGO_TARGET_DIR": TARGET, "RUSTFLAGS": f"--cfg {GUARD}" + (" -C instrument-coverage" if COV else "")}
     if extra_env:
         env.update(extra_env)
     rc, out = run(cmd, cwd=h, timeout=timeout, env=env)
